@@ -65,8 +65,9 @@ def run(chk, replay=None):
                  for dev in ("DevBoundIndexSubs", "DevDropUnusedIndex")}
         # the interpreted head Z (a summand can lose an index by the value of another index): laws + sensitivity
         zkw = dict(init="PoolZInit", maps="PoolZMaps", pairs="PoolZPairs", leafs=("x",), idxs=("i", "j"), vals=("1",), poolset="PoolsZero", max_idx=2)
-        f_z = ex.submit(run_tlc, "ExprOps_MC", P.pool_cfg(max_ops=1, full_quantification=True, **zkw), workers=3, timeout=1500)
-        f_dev["DevDropIndexUnusedAfterSubst"] = ex.submit(run_tlc, "ExprOps_MC", P.pool_cfg(max_ops=1, dev="DevDropIndexUnusedAfterSubst", full_quantification=True, **zkw), workers=1, timeout=600)
+        # (quick: the laws on every transition taken; thorough: two operations and every law for every map in every state)
+        f_z = ex.submit(run_tlc, "ExprOps_MC", P.pool_cfg(max_ops=2 if tier == "thorough" else 1, full_quantification=(tier == "thorough"), **zkw), workers=3, timeout=2400)
+        f_dev["DevDropIndexUnusedAfterSubst"] = ex.submit(run_tlc, "ExprOps_MC", P.pool_cfg(max_ops=1, dev="DevDropIndexUnusedAfterSubst", **zkw), workers=1, timeout=600)
         res, cov = f_main.result(), f_cov.result()
         resz = f_z.result()
         devres = {k: f.result() for k, f in f_dev.items()}
